@@ -287,6 +287,18 @@ def gen_plan(rng):
             prior.append({"o": "other", "probe": gen_probe_op(rng, trs_pool)})
     if shadow is not None:
         prior.insert(rng.randint(0, len(prior)), {"o": "other", "probe": shadow})
+    if rng.random() < 0.025:
+        # counter-boundary mode: the creation counter is driven to just below
+        # a round value right before a probe that sorts several tracts of one
+        # description back into creation order
+        boundary = rng.choice((10, 100, 256, 1000, 1024, 4096, 10000))
+        texts = [corpus.gen_desc(rng) for _ in range(2)]
+        probe[0] = rng.choice((
+            {"p": "sort_i", "text": rng.choice(corpus.HANDPICKED[-10:-6] + texts),
+             "scramble": rng.choice(("s.rev", "t.sn,r.ew", "s,r,t"))},
+            {"p": "tractlist", "texts": texts, "then": "sort_i"}))
+        prior.append({"o": "bulk", "n": 50, "kind": "tract",
+                      "uid_target": boundary - rng.randint(1, 3)})
     if mc_dirty and rng.random() < 0.6:
         prior.append({"o": "mc_restore"})
     if rng.random() < 0.15 and "cache" in kinds:
